@@ -426,6 +426,26 @@ def run_config(contract, cfg, facets="VCSTRN", prime=None, tier="quick", max_pat
             if P.solver.check() == z3.unsat:
                 res["engine_errors"].append("vacuous: precondition unsatisfiable in cfg %r" % (cfg,))
                 break
+            hyp_start = len(g.trace)
+            hist = cfg.get("_history")
+            if hist:
+                # pre-state reached through an earlier call of the same function (pyvc/history.py)
+                from . import history as _hist
+                w.target = contract.target
+                w.target_entered = False
+                try:
+                    applies = _hist.prelude(c, hist, fn, args, kwargs, passthrough=(PathAbort, Escape, interp.Unsupported, RecursionError))
+                except PathAbort:
+                    res["aborted"] += 1
+                    worklist.extend(P.pending)
+                    continue
+                except (Escape, interp.Unsupported, RecursionError) as e:
+                    res["engine_errors"].append("history prelude: %s: %s" % (type(e).__name__, e))
+                    worklist.extend(P.pending)
+                    continue
+                if not applies:
+                    res["history_na"] = True
+                    break
             c.entry = c.snapshot()
             start = len(g.trace)
             opsnap = _snapshot_operands(c, args, kwargs)
@@ -515,15 +535,17 @@ def run_config(contract, cfg, facets="VCSTRN", prime=None, tier="quick", max_pat
                     if fac == "canary":
                         if "K" in facets and cfg.get("mode") != "g0":
                             inner = nm.split(".", 1)[1]
-                            hy = g.sat_a(start) if inner.startswith(("S.", "E.")) else []
+                            hy = (g.sat_a(hyp_start) + ([] if contract.is_untied(inner) else list(g.ties))) if inner.startswith(("S.", "E.")) else []
                             obs.append((nm, hy, f, None))
                         continue
                     if fac not in facets:
                         continue
                     if fac in ("S", "E"):
                         if sat_a is None:
-                            sat_a = g.sat_a(start)
-                        obs.append((nm, sat_a, f, None))
+                            sat_a = g.sat_a(hyp_start)
+                        # operands keep their values (the statement of C02/C03) unless the clause is declared
+                        # to hold for arbitrary input wires
+                        obs.append((nm, sat_a + ([] if contract.is_untied(nm) else list(g.ties)), f, None))
                     else:
                         obs.append((nm, [], f, None))
                 if "F" in facets or "V" in facets:
@@ -588,12 +610,12 @@ def run_config(contract, cfg, facets="VCSTRN", prime=None, tier="quick", max_pat
                     ob["detail"] = res["exc_by_path"][psig + "/frame"]
                 if model is not None:
                     ob["model"] = {k: v for k, v in model.items()
-                                   if k.startswith(("s_", "k_", "a_"))}
+                                   if k.startswith(("s_", "k_", "a_", "t_"))}
                     if nm.startswith(("S.", "E.")) and outcome[0] == "ret":
                         # adversarial values of the witnesses this function allocates itself, in order
                         # and of the results of callees that merely allocate a witness (PrivValBool, ...)
                         fg = []
-                        for e in g.trace[start:]:
+                        for e in g.trace[hyp_start:]:
                             if isinstance(e, gh.Alloc) and e.var.kind == "priv":
                                 fg.append(model.get(str(e.var.a)))
                             elif isinstance(e, gh.Grp) and getattr(e, "witness_like", False) and len(getattr(e, "result_vars", [])) == 1:
